@@ -15,6 +15,8 @@ checked directly.
 """
 from __future__ import annotations
 
+from harness import REPO_SRC  # noqa: E402
+
 import json
 import multiprocessing
 import os
@@ -46,7 +48,7 @@ def body(n, v):
 
 def _replay(args):
     recs, seed = args
-    sys.path.insert(0, "/repo/src")
+    sys.path.insert(0, REPO_SRC)
     from chameleon import PageTemplateFile
     from chameleon.zpt.loader import TemplateLoader
     out = []
@@ -179,7 +181,7 @@ def run_model(ctx, maxops, simulate=None):
 
 def loader_rules(ctx):
     """name resolution rules checked directly"""
-    sys.path.insert(0, "/repo/src")
+    sys.path.insert(0, REPO_SRC)
     from chameleon import PageTemplateFile
     from chameleon.zpt.loader import TemplateLoader
     root = tempfile.mkdtemp(prefix="c16l_")
